@@ -6,6 +6,8 @@ import LithiumModel.Load
 import LithiumModel.World
 import LithiumModel.Minimize
 import LithiumModel.Pairs
+import LithiumModel.SplitJs
+import LithiumModel.SplitAttrs
 import LithiumModel.Interest
 import LithiumModel.TempDir
 
@@ -28,6 +30,8 @@ def cmdLoad (kind : String) (data : String) : String :=
     match kind.splitOn ":" with
     | ["line"] => showLoad (Load.loadLine d)
     | ["char"] => showLoad (Load.loadChar d)
+    | ["jsstr"] => showLoad (Js.loadJs d)
+    | ["attrs"] => showLoad (Attrs.loadAttrs d)
     | ["symbol"] => showLoad (Load.loadSymbol Load.DEFAULT_CUT_BEFORE Load.DEFAULT_CUT_AFTER d)
     | ["symbol", b, a] =>
       match decBytes b, decBytes a with
